@@ -13,6 +13,7 @@ structure InvG (s : State) : Prop where
   gen : s.loserSeen = false → ∀ sl ∈ s.table, (findStream s.streams sl.cid sl.fwd).map (·.gen) = some sl.gen
   loser : s.loserSeen = true → 0 < s.nfwd
   live : ∀ sl ∈ s.table, (findStream s.streams sl.cid sl.fwd).isSome
+  sd : ∀ c, s.sending = some c → c < s.clients.length
 
 theorem findStream_spec {ss : List Stream} {c f : Nat} {st : Stream} (h : findStream ss c f = some st) :
     st ∈ ss ∧ st.cid = c ∧ st.fwd = f := by
@@ -70,11 +71,11 @@ theorem clientEpoch_bump (cs : List Client) (cid : Nat) (hc : cid < cs.length) (
     | some c => simp [hk]
 
 /-- streams, epochs, nfwd, loserSeen unchanged; the table only shrinks -/
-theorem InvG.weaken {s s' : State} (hG : InvG s) (hs : s'.streams = s.streams) (hn : s'.nfwd = s.nfwd)
+theorem InvG.weaken {s s' : State} (hG : InvG s) (hsd : s'.sending = s.sending) (hs : s'.streams = s.streams) (hn : s'.nfwd = s.nfwd)
     (hl : s'.loserSeen = s.loserSeen) (hlen : s'.clients.length = s.clients.length)
     (he : ∀ k, clientEpoch s'.clients k = clientEpoch s.clients k)
     (ht : ∀ sl ∈ s'.table, sl ∈ s.table) : InvG s' := by
-  refine ⟨hs ▸ hG.skey, ?_, ?_, ?_, ?_, ?_⟩
+  refine ⟨hs ▸ hG.skey, ?_, ?_, ?_, ?_, ?_, by rw [hsd, hlen]; exact hG.sd⟩
   · rw [hs, hlen, hn]; exact hG.scid
   · rw [hs, hn]; intro st hst; rw [he]; exact hG.lep st hst
   · rw [hs, hl]; intro h sl hsl; exact hG.gen h sl (ht sl hsl)
@@ -91,7 +92,7 @@ theorem InvG.ensureStream {s : State} (hG : InvG s) (cid fwd : Nat) (hc : cid < 
       unfold findStream at hnone
       have := List.find?_eq_none.mp hnone
       intro x hx; simpa using this x hx
-    refine ⟨⟨?_, ?_, ?_, ?_, hG.loser, ?_⟩, ?_⟩
+    refine ⟨⟨?_, ?_, ?_, ?_, hG.loser, ?_, hG.sd⟩, ?_⟩
     · simp only [List.map_append, List.map_cons, List.map_nil]
       refine List.nodup_append.mpr ⟨hG.skey, by simp, ?_⟩
       intro a ha b hb hab
@@ -145,7 +146,7 @@ theorem chooseClient_valid (cs : List Client) (hh : Bool) : ∀ (k idx i c : Nat
 
 theorem InvG.failSlots {s : State} (hG : InvG s) (cid : Nat) (dead : Slot → Bool) (err : Err) :
     InvG (failSlots s cid dead err) := by
-  refine hG.weaken rfl rfl rfl (length_updClient _ _ _) (clientEpoch_updClient _ _ _ (fun _ => rfl)) ?_
+  refine hG.weaken rfl rfl rfl rfl (length_updClient _ _ _) (clientEpoch_updClient _ _ _ (fun _ => rfl)) ?_
   intro sl hsl
   exact (List.mem_filter.mp hsl).1
 
@@ -153,7 +154,7 @@ theorem InvG.track {s : State} (hG : InvG s) (cid fwd gen : Nat)
     (hgen : s.loserSeen = false → (findStream s.streams cid fwd).map (·.gen) = some gen)
     (hlive : (findStream s.streams cid fwd).isSome) :
     InvG (track s cid fwd gen) := by
-  refine ⟨hG.skey, ?_, ?_, ?_, hG.loser, ?_⟩
+  refine ⟨hG.skey, ?_, ?_, ?_, hG.loser, ?_, by intro c h; show c < (updClient _ _ _).length; rw [length_updClient]; exact hG.sd c h⟩
   · intro st hst
     have := hG.scid st hst
     exact ⟨by show st.cid < (updClient _ _ _).length; rw [length_updClient]; exact this.1, this.2⟩
@@ -202,7 +203,7 @@ theorem InvG.sendGroup {s : State} (hG : InvG s) (cid fwd : Nat) (hc : cid < s.c
       · refine ⟨hT.failSlots _ _ _, ?_, hlenE.2.1⟩
         show (updClient _ _ _).length = _
         rw [length_updClient]; exact hlenT
-      · exact ⟨hT.weaken rfl rfl rfl rfl (fun _ => rfl) (fun _ h => h), hlenT, hlenE.2.1⟩
+      · exact ⟨hT.weaken rfl rfl rfl rfl rfl (fun _ => rfl) (fun _ h => h), hlenT, hlenE.2.1⟩
 
 theorem InvG.sendAll {s : State} (hG : InvG s) (cid : Nat) (hc : cid < s.clients.length) : ∀ k, k ≤ s.nfwd →
     InvG (sendAll s cid k) ∧ (sendAll s cid k).clients.length = s.clients.length ∧ (sendAll s cid k).nfwd = s.nfwd
@@ -212,8 +213,14 @@ theorem InvG.sendAll {s : State} (hG : InvG s) (cid : Nat) (hc : cid < s.clients
     obtain ⟨g1, g2, g3⟩ := h1.sendGroup cid (k + 1) (by rw [h2]; exact hc) (by rw [h3]; exact hk)
     exact ⟨g1, g2.trans h2, g3.trans h3⟩
 
-theorem InvG.flush {s : State} (hG : InvG s) : InvG (flush s) := by
-  unfold CGV.BatchMux.flush
+theorem InvG.setSending {s : State} (hG : InvG s) (c : Option Nat) (hc : ∀ x, c = some x → x < s.clients.length) :
+    InvG { s with sending := c } :=
+  ⟨hG.skey, hG.scid, hG.lep, hG.gen, hG.loser, hG.live, hc⟩
+
+theorem InvG.flushBegin {s : State} (hG : InvG s) : InvG (flushBegin s) := by
+  unfold CGV.BatchMux.flushBegin
+  split
+  · exact hG
   simp only
   generalize hpk : chooseClient s.clients _ s.clients.length s.index = pk
   obtain ⟨idx, pick⟩ := pk
@@ -222,24 +229,34 @@ theorem InvG.flush {s : State} (hG : InvG s) : InvG (flush s) := by
   | none =>
     simp only
     split
-    · exact hG.weaken rfl rfl rfl rfl (fun _ => rfl) (fun _ h => h)
-    · exact hG.weaken rfl rfl rfl rfl (fun _ => rfl) (fun _ h => h)
+    · exact hG.weaken rfl rfl rfl rfl rfl (fun _ => rfl) (fun _ h => h)
+    · exact hG.weaken rfl rfl rfl rfl rfl (fun _ => rfl) (fun _ h => h)
   | some cid =>
     simp only
     have hc := chooseClient_valid _ _ _ _ _ _ hpk
     generalize buildLoop s.entries _ (s.heap.length + 1) s.heap { idAlloc := s.idAlloc, count := 0, items := [] } = r
     obtain ⟨hp, bst⟩ := r
     simp only
-    have h1 : InvG { s with index := idx, heap := hp, idAlloc := bst.idAlloc, built := bst.items.reverse, allocLog := bst.items.map (fun it => (it.id, it.h)) ++ s.allocLog } :=
-      hG.weaken rfl rfl rfl rfl (fun _ => rfl) (fun _ h => h)
-    exact (h1.sendAll cid hc s.nfwd (Nat.le_refl _)).1
+    have h1 : InvG { s with index := idx, heap := hp, idAlloc := bst.idAlloc, built := bst.items.reverse, breqs := bst.items.reverse.map (·.req), allocLog := bst.items.map (fun it => (it.id, it.h)) ++ s.allocLog } :=
+      hG.weaken rfl rfl rfl rfl rfl (fun _ => rfl) (fun _ h => h)
+    exact h1.setSending (some cid) (fun x h => by cases h; exact hc)
+
+theorem InvG.flushEnd {s : State} (hG : InvG s) : InvG (flushEnd s) := by
+  unfold CGV.BatchMux.flushEnd
+  split
+  · exact hG
+  · rename_i cid hsd
+    have h1 := (hG.sendAll cid (hG.sd cid hsd) s.nfwd (Nat.le_refl _)).1
+    exact h1.setSending none (fun x h => by cases h)
+
+theorem InvG.flush {s : State} (hG : InvG s) : InvG (flush s) := hG.flushBegin.flushEnd
 
 theorem InvG.recv1 {s : State} (hG : InvG s) (cid : Nat) (r : Nat × Nat) : InvG (recv1 cid s r) := by
   unfold CGV.BatchMux.recv1
   simp only
   split
-  · exact hG.weaken rfl rfl rfl rfl (fun _ => rfl) (fun _ h => h)
-  · refine hG.weaken rfl rfl rfl (length_updClient _ _ _) (clientEpoch_updClient _ _ _ (fun _ => rfl)) ?_
+  · exact hG.weaken rfl rfl rfl rfl rfl (fun _ => rfl) (fun _ h => h)
+  · refine hG.weaken rfl rfl rfl rfl (length_updClient _ _ _) (clientEpoch_updClient _ _ _ (fun _ => rfl)) ?_
     intro sl hsl
     exact (List.mem_filter.mp hsl).1
 
@@ -264,7 +281,10 @@ theorem InvG.kill {s : State} (hG : InvG s) (cid fwd : Nat) : InvG (kill s cid f
       · -- CAS winner
         rename_i hwin
         have hF := hG.failSlots cid (fun sl => sl.fwd = fwd) .stream
-        refine ⟨?_, ?_, ?_, ?_, hG.loser, ?_⟩
+        refine ⟨?_, ?_, ?_, ?_, hG.loser, ?_, by
+          intro c h
+          show c < (updClient (updClient _ _ _) _ _).length
+          rw [length_updClient, length_updClient]; exact hG.sd c h⟩
         · show (List.map streamKey (s.streams.map _)).Nodup
           rw [List.map_map]
           have : (streamKey ∘ fun x : Stream =>
@@ -375,7 +395,7 @@ theorem InvG.kill {s : State} (hG : InvG s) (cid fwd : Nat) : InvG (kill s cid f
           simpa using hold
       · -- CAS loser
         rename_i hlose
-        refine ⟨?_, ?_, ?_, ?_, ?_, ?_⟩
+        refine ⟨?_, ?_, ?_, ?_, ?_, ?_, hG.sd⟩
         · show (List.map streamKey (s.streams.map _)).Nodup
           rw [List.map_map]
           have : (streamKey ∘ fun x : Stream =>
@@ -420,15 +440,17 @@ theorem InvG.step {s : State} (hG : InvG s) (op : Op) : InvG (step s op) := by
   | submit p pri fwd =>
     show InvG (CGV.BatchMux.submit s p pri fwd)
     unfold CGV.BatchMux.submit; simp only
-    split <;> exact hG.weaken rfl rfl rfl rfl (fun _ => rfl) (fun _ h => h)
+    split <;> exact hG.weaken rfl rfl rfl rfl rfl (fun _ => rfl) (fun _ h => h)
   | fetch max =>
     show InvG (CGV.BatchMux.fetch s max)
     unfold CGV.BatchMux.fetch
     split
     · exact hG
-    · exact hG.weaken rfl rfl rfl rfl (fun _ => rfl) (fun _ h => h)
-  | breset => exact hG.weaken rfl rfl rfl rfl (fun _ => rfl) (fun _ h => h)
+    · exact hG.weaken rfl rfl rfl rfl rfl (fun _ => rfl) (fun _ h => h)
+  | breset => exact hG.weaken rfl rfl rfl rfl rfl (fun _ => rfl) (fun _ h => h)
   | flush => exact hG.flush
+  | flushBegin => exact hG.flushBegin
+  | flushEnd => exact hG.flushEnd
   | recv cid fwd rs =>
     show InvG (CGV.BatchMux.recv s cid fwd rs)
     unfold CGV.BatchMux.recv
@@ -438,15 +460,15 @@ theorem InvG.step {s : State} (hG : InvG s) (op : Op) : InvG (step s op) := by
       · exact hG
       · exact InvG.recvFold cid rs hG
   | kill cid fwd => exact hG.kill cid fwd
-  | cancel h => exact hG.weaken rfl rfl rfl rfl (fun _ => rfl) (fun _ h => h)
-  | timeout h => exact hG.weaken rfl rfl rfl rfl (fun _ => rfl) (fun _ h => h)
-  | wake h => exact hG.weaken rfl rfl rfl rfl (fun _ => rfl) (fun _ h => h)
-  | close => exact hG.weaken rfl rfl rfl rfl (fun _ => rfl) (fun _ h => h)
+  | cancel h => exact hG.weaken rfl rfl rfl rfl rfl (fun _ => rfl) (fun _ h => h)
+  | timeout h => exact hG.weaken rfl rfl rfl rfl rfl (fun _ => rfl) (fun _ h => h)
+  | wake h => exact hG.weaken rfl rfl rfl rfl rfl (fun _ => rfl) (fun _ h => h)
+  | close => exact hG.weaken rfl rfl rfl rfl rfl (fun _ => rfl) (fun _ h => h)
   | sendfail cid fwd b =>
     have hFk : ∀ x : Stream, ((fun x : Stream => if x.cid = cid ∧ x.fwd = fwd then { x with sendFail := b } else x) x).cid = x.cid ∧
         ((fun x : Stream => if x.cid = cid ∧ x.fwd = fwd then { x with sendFail := b } else x) x).fwd = x.fwd := by
       intro x; simp only; split <;> exact ⟨rfl, rfl⟩
-    refine ⟨?_, ?_, ?_, ?_, hG.loser, ?_⟩
+    refine ⟨?_, ?_, ?_, ?_, hG.loser, ?_, hG.sd⟩
     · show (List.map streamKey (s.streams.map _)).Nodup
       rw [List.map_map]
       have : (streamKey ∘ fun x : Stream => if x.cid = cid ∧ x.fwd = fwd then { x with sendFail := b } else x) = streamKey := by
@@ -476,14 +498,14 @@ theorem InvG.step {s : State} (hG : InvG s) (op : Op) : InvG (step s op) := by
       rw [findStream_map _ _ hFk]
       simpa using hold
   | lockrec cid b =>
-    exact hG.weaken rfl rfl rfl (length_updClient _ _ _) (clientEpoch_updClient _ _ _ (fun _ => rfl)) (fun _ h => h)
+    exact hG.weaken rfl rfl rfl rfl (length_updClient _ _ _) (clientEpoch_updClient _ _ _ (fun _ => rfl)) (fun _ h => h)
   | setlimit cid l =>
-    exact hG.weaken rfl rfl rfl (length_updClient _ _ _) (clientEpoch_updClient _ _ _ (fun _ => rfl)) (fun _ h => h)
-  | cfgcancel b => exact hG.weaken rfl rfl rfl rfl (fun _ => rfl) (fun _ h => h)
+    exact hG.weaken rfl rfl rfl rfl (length_updClient _ _ _) (clientEpoch_updClient _ _ _ (fun _ => rfl)) (fun _ h => h)
+  | cfgcancel b => exact hG.weaken rfl rfl rfl rfl rfl (fun _ => rfl) (fun _ h => h)
   | panicRecover => exact hG
 
 theorem InvG.init (n limit nfwd : Nat) : InvG (init n limit nfwd) := by
-  refine ⟨?_, ?_, ?_, ?_, ?_, ?_⟩ <;> simp [CGV.BatchMux.init]
+  refine ⟨?_, ?_, ?_, ?_, ?_, ?_, ?_⟩ <;> simp [CGV.BatchMux.init]
 
 theorem InvG.run {s : State} (hG : InvG s) : ∀ ops : List Op, InvG (run s ops) := by
   intro ops
